@@ -816,11 +816,10 @@ func (f *hflow) wrapsSourceError(issue error) bool {
 		return false
 	}
 	root := rootError(issue)
-	if root == issue {
+	if errors.Unwrap(issue) == nil {
 		return false // nothing is wrapped
 	}
-	defer func() { _ = recover() }() // == on an uncomparable dynamic type
-	return root == f.srcRoot
+	return sameIface(root, f.srcRoot)
 }
 
 func (f *hflow) obsVFC(iss validator.Issues) []oissue {
